@@ -40,14 +40,15 @@ def exact_stmt(op, T):
         inv = "wrapping_sub" if op == "add" else "wrapping_add"
         return "assert!({o}.%s({b}) == {a}, \"VK: scalar result is the exact integer result\");" % inv
     if op == "mul" and T in ("i8", "u8", "i16", "u16"):
-        return "assert!(({o} as i64) == ({a} as i64) * ({b} as i64), \"VK: scalar result is the exact integer result\");"
-    if op in ("div", "mod") and T in ("i8", "u8", "i16", "u16"):
+        return "assert!(({o} as i32) == ({a} as i32) * ({b} as i32), \"VK: scalar result is the exact integer result\");"
+    if op in ("div", "mod") and T in ("i8", "u8"):
         # truncated division: a == q*b + r, |r| < |b|, r has the sign of a (or is 0)
         if op == "div":
-            return ("{{ let (a_, b_, q_) = ({a} as i64, {b} as i64, {o} as i64); let r_ = a_ - q_ * b_; "
+            return ("{{ let (a_, b_, q_) = ({a} as i32, {b} as i32, {o} as i32); let r_ = a_ - q_ * b_; "
                     "assert!(r_.abs() < b_.abs() && (r_ == 0 || (r_ < 0) == (a_ < 0)), \"VK: scalar quotient is the exact truncated quotient\"); }}")
-        return ("{{ let (a_, b_, r_) = ({a} as i64, {b} as i64, {o} as i64); "
-                "assert!(r_.abs() < b_.abs() && (r_ == 0 || (r_ < 0) == (a_ < 0)) && (a_ - r_) % b_ == 0, \"VK: scalar remainder is the exact remainder\"); }}")
+        # exact remainder: |r| < |b|, sign of a, and a - r is a multiple of b with the truncated quotient as witness
+        return ("{{ let (a_, b_, r_) = ({a} as i32, {b} as i32, {o} as i32); let q_ = ({a}.wrapping_div({b})) as i32; "
+                "assert!(r_.abs() < b_.abs() && (r_ == 0 || (r_ < 0) == (a_ < 0)) && a_ == q_ * b_ + r_, \"VK: scalar remainder is the exact remainder\"); }}")
     return None
 
 
@@ -88,7 +89,9 @@ def kani_tractable(op, T, form_suffix, tier):
     if tier == "thorough":
         return True
     wide = T in ("i32", "u32", "i64", "u64", "i128", "u128")
-    if op in ("mul", "div", "mod") and wide:
+    if op == "mul" and wide:
+        return False
+    if op in ("div", "mod") and T not in ("i8", "u8") and T not in FLOATS:
         return False
     if op in ("div", "mod", "pow") and T in FLOATS:
         return False
@@ -168,7 +171,9 @@ def select(kinds, tier, seed, op, forms):
     sel = {k: [forms[0]] for k in kinds}
     sel[core] = list(forms)
     rest = [k for k in kinds if k != core and k not in ("i128", "u128", "f64")]
-    for _ in range(2):
+    if op in ("mul", "div", "mod", "pow"):
+        rest = []
+    for _ in range(1):
         if rest and len(forms) > 1:
             k = rnd.choice(rest)
             f = rnd.choice(forms[1:])
